@@ -113,6 +113,19 @@ def run(tier, seed, replay):
             p = jqgen.Gen(r).pathexpr(r.choice([1, 2, 2, 3]))
             for kind, src, ref in r.sample(forms(p, r), 3):
                 add(src, r.sample(uni, 2), ref)
+        # updates whose body deletes (empty) NESTED in updates that delete, recursively, repeatedly in one program and over several inputs of one
+        # compiled query: every `|=` keeps its own list of paths to delete
+        nested = [".[] |= (if type == \"object\" then (.c |= empty) else empty end)", "walk(select(. != 1))", "walk(if type == \"number\" then empty else . end)", ".. |= (if type == \"array\" then (.[0] |= empty) else . end)",
+                  "(.a, .b) |= ((.x, .c)? |= empty)", ".[] |= ((.[]? |= empty) | select(length > 0))", "map_values(map_values(empty)?)", "map_values(if type == \"object\" then map_values(select(. != 1)) else empty end)",
+                  ".[] |= (.[]? |= (.[]? |= empty))", "(.[] | select(type == \"object\")) |= with_entries(select(.value != 2))", ".[] |= (if type == \"number\" then empty else (.[]? |= select(. != 3)) end)",
+                  "(.[] |= empty), (.[] |= (.[]? |= empty))", "[(.[] |= empty), (.[]? |= select(type != \"number\"))]", "reduce (1, 2) as $i (.; .[] |= (if type == \"number\" then empty else (.[]? |= empty) end))",
+                  "def d: .[]? |= (d | select(. != 1 and . != [])); d", "to_entries |= map(select(.value != 1)) | .[] |= (.value |= (.[]? |= empty))", "del(.[] | select(. == 1)) | .[] |= (.[]? |= empty)",
+                  ".[] |= (.. |= (numbers |= empty))?", "path(..) as $p | getpath($p) |= (.[]? |= empty)", "[paths] as $ps | reduce $ps[] as $p (.; getpath($p) |= (if type == \"number\" then empty else . end))?"]
+        nestin = [jqgen.V(x) for x in ({"a": 1, "b": {"c": 2, "d": 3}}, {"a": 1, "b": {"c": 1, "d": 2}, "e": 3}, [1, [1, 2], {"c": 1, "x": 2}, 3], {"a": {"x": 1, "c": 2}, "b": {"c": 3}}, [[1, 2, 3], [4, [5, 6]], 7], {"k": [1, {"c": [2, 3]}], "m": 1},
+                                           [{"c": 1}, {"c": 2, "d": [3, 3]}, 1, 2, 3, 4, 5, 6, 7, 8, 9], [[[1, 2], [3]], [[4]], 5], {}, [], 1)]
+        for q in nested:
+            add(q, nestin, None)
+            add("(%s), (%s)" % (q, q), r.sample(nestin, 4), None)
         counters = evalfam.check_cases(rep, work, vh, prelude, cases, timeout=900 if quick else 3000)
         rep.cov["verdicts"] = counters
         probe_empty_location(rep, work, vh)
